@@ -548,7 +548,6 @@ func genC15() {
 		return true
 	})
 	facts["lease_ticker_period"] = period
-	facts["lease_ticker_calls"] = calls
 
 	rc := c15FuncByName(g, "runCluster")
 	if rc == nil {
@@ -573,17 +572,46 @@ func genC15() {
 	})
 	facts["lease_runcluster_order"] = order
 
-	// fingerprints of the whole functions that use the election in cmd/syncer.go
-	// (printed, whitespace-normalised, sha256/64 bit): clusterTicker is executed
-	// by the harness; runCluster only up to its first campaign, so any edit of
-	// these must be re-read against the model's assumptions.
-	for _, fn := range []string{"clusterTicker", "clusterRenew", "clusterCampaign", "runCluster"} {
-		fd := c15FuncByName(g, fn)
+	// runCluster is executed by the harness only up to its first campaign; the
+	// rest (start/stop of the syncer around the ticker, resign) is pinned by
+	// the order list above and by a fingerprint of its control-flow skeleton:
+	// the printed function with log / metric statements removed and every
+	// string literal blanked (sha256/64 bit), so a changed message or comment
+	// does not alarm. clusterTicker/clusterRenew/clusterCampaign/run are
+	// executed for real and need no fingerprint.
+	{
+		fset3, g3 := parseFile("cmd/syncer.go") // own copy: stripping edits the tree
+		fd := c15FuncByName(g3, "runCluster")
 		if fd == nil {
-			die("cmd/syncer.go: %s not found", fn)
+			die("cmd/syncer.go: runCluster not found")
 		}
-		sum := sha256.Sum256([]byte(c15Print(fset2, fd)))
-		facts["lease_src_"+fn] = fmt.Sprintf("%x", sum[:8])
+		c15StripLogs(fd.Body)
+		sum := sha256.Sum256([]byte(c15Print(fset3, fd)))
+		facts["lease_skel_runCluster"] = fmt.Sprintf("%x", sum[:8])
+	}
+	// every statement of run() that mentions the ttl handed to the lease store
+	if runFn := c15FuncByName(g, "run"); runFn != nil {
+		var ttlStmts []string
+		ast.Inspect(runFn.Body, func(n ast.Node) bool {
+			switch x := n.(type) {
+			case *ast.AssignStmt, *ast.IncDecStmt, *ast.ExprStmt:
+				txt := c15Print(fset2, x.(ast.Node))
+				uses := false
+				ast.Inspect(x.(ast.Node), func(m ast.Node) bool {
+					if id, ok := m.(*ast.Ident); ok && id.Name == "ttl" {
+						uses = true
+					}
+					return true
+				})
+				if uses {
+					ttlStmts = append(ttlStmts, txt)
+				}
+			}
+			return true
+		})
+		facts["lease_run_ttl_stmts"] = ttlStmts
+	} else {
+		die("cmd/syncer.go: run not found")
 	}
 	// election identity and key as runCluster derives them
 	ast.Inspect(rc.Body, func(n ast.Node) bool {
@@ -628,4 +656,56 @@ func genC15() {
 	}
 	sb.WriteString("end GunYu.Gen\n")
 	writeIfChanged(filepath.Join(*out, "LeaseScripts.lean"), sb.String())
+}
+
+// c15IsLogCall: sc.logger.X(...), log.X(...), <x>Counter/<x>Gauge metric calls.
+func c15IsLogCall(e ast.Expr) bool {
+	ce, ok := e.(*ast.CallExpr)
+	if !ok {
+		return false
+	}
+	sel, ok := ce.Fun.(*ast.SelectorExpr)
+	if !ok {
+		return false
+	}
+	switch x := sel.X.(type) {
+	case *ast.Ident:
+		return x.Name == "log" || x.Name == "logger" || strings.HasSuffix(x.Name, "Counter") || strings.HasSuffix(x.Name, "Gauge")
+	case *ast.SelectorExpr:
+		return x.Sel.Name == "logger"
+	}
+	return false
+}
+
+// c15StripLogs removes log/metric statements and blanks string literals, in place.
+func c15StripLogs(n ast.Node) {
+	ast.Inspect(n, func(m ast.Node) bool {
+		switch x := m.(type) {
+		case *ast.BlockStmt:
+			x.List = c15FilterStmts(x.List)
+		case *ast.CaseClause:
+			x.Body = c15FilterStmts(x.Body)
+		case *ast.CommClause:
+			x.Body = c15FilterStmts(x.Body)
+		case *ast.BasicLit:
+			if x.Kind == token.STRING {
+				x.Value = `""`
+			}
+		}
+		return true
+	})
+}
+
+func c15FilterStmts(in []ast.Stmt) []ast.Stmt {
+	var out []ast.Stmt
+	for _, st := range in {
+		if es, ok := st.(*ast.ExprStmt); ok && c15IsLogCall(es.X) {
+			continue
+		}
+		if ds, ok := st.(*ast.DeferStmt); ok && c15IsLogCall(ds.Call) {
+			continue
+		}
+		out = append(out, st)
+	}
+	return out
 }
